@@ -132,6 +132,7 @@ WHY = {
     "plugin_manager": "plugin hooks do not fire for this part of the package",
     "fragments_definitions": "fragment spreads cannot be resolved for this part of the package",
     "async_client": "sync and async flavours are mixed in one client",
+    "config_dict": "plugins that read their own section of the configuration (ExtractOperations, ShorterResults module names) see an empty configuration",
 }
 
 
@@ -152,7 +153,7 @@ def c18_r9(ctx):
 
 @rule("C15.R10", "the plugin manager reaches every generator that fires hooks", min_instances=24)
 def c15_r10(ctx):
-    threaded(ctx, {"plugin_manager"}, WHY)
+    threaded(ctx, {"plugin_manager", "config_dict"}, WHY)
 
 
 @rule("C04.R10", "module names, imports and fragment tables given to the package generator reach the generators that emit imports", min_instances=45,
@@ -160,3 +161,75 @@ def c15_r10(ctx):
 def c04_r10(ctx):
     threaded(ctx, {"base_model_import", "enums_module_name", "fragments_module_name", "input_types_module_name", "fragments_definitions", "schema", "async_client",
                    "default_optional_fields_to_any", "include_typename", "scalars_module_name", "unset_import", "upload_import", "operation_definition"}, WHY)
+
+
+# callee parameter -> attribute of the settings object that configures it, where the two are spelled differently
+# (confirmed by reading main.py / package.get_package_generator; identity pairs need no entry)
+SETTINGS_RENAMES = {
+    ("*", "custom_scalars"): "scalars",
+    ("PackageGenerator.__init__", "package_name"): "target_package_name",
+    ("PackageGenerator.__init__", "target_path"): "target_package_path",
+    ("PackageGenerator.__init__", "comments_strategy"): "include_comments",
+    ("PackageGenerator.__init__", "queries_source"): "queries_path",
+    ("generate_graphql_schema_python_file", "type_map_name"): "type_map_variable_name",
+    ("get_graphql_schema_from_url", "url"): "remote_schema_url",
+    ("get_graphql_schema_from_url", "headers"): "remote_schema_headers",
+    ("get_graphql_schema_from_url", "verify_ssl"): "remote_schema_verify_ssl",
+    ("get_plugins_types", "plugins_strs"): "plugins",
+    ("ClientGenerator.__init__", "name"): "client_name",
+    ("ClientGenerator.__init__", "base_client"): "base_client_name",
+    ("InputTypesGenerator.__init__", "enums_module"): "enums_module_name",
+}
+
+
+def _settings_fields(repo) -> Set[str]:
+    out: Set[str] = set()
+    for cn in ("ClientSettings", "GraphQLSchemaSettings", "BaseSettings"):
+        ci = repo.cls("settings:" + cn)
+        for c in repo.mro(ci):
+            for name, _ann, _ in c.fields():
+                out.add(name)
+    return out
+
+
+@rule("C17.R8", "every setting reaches the parameter it configures (same name, or the tabled rename), at every constructor / loader call of the entry points", min_instances=40,
+      also=["C01", "C03", "C04", "C05", "C06", "C07", "C08", "C09", "C10", "C11", "C12", "C13", "C14", "C15", "C16", "C18", "C19"])
+def c17_r8(ctx):
+    repo = ctx.repo
+    cg = _cg(repo)
+    fields = _settings_fields(repo)
+    n = 0
+    for fi in repo.all_functions():
+        a = fi.node.args
+        has = any(x.arg == "settings" for x in a.posonlyargs + a.args + a.kwonlyargs) or any(
+            isinstance(st, ast.Assign) and any(isinstance(t, ast.Name) and t.id == "settings" for t in st.targets) for st in ast.walk(fi.node))
+        if not has or fi.module.short.startswith("client_generators.dependencies"):
+            continue
+        for c, targets in cg.callees(fi):
+            for t in targets:
+                if t.node.name == "__post_init__" or t.module.short == "settings":
+                    continue
+                ps, kwo = _params(t)
+                for i, p in enumerate(ps + kwo):
+                    attr = SETTINGS_RENAMES.get((t.qualname, p)) or SETTINGS_RENAMES.get(("*", p)) or (p if p in fields else None)
+                    if attr is None or attr not in fields:
+                        continue
+                    val = None
+                    for k in c.keywords:
+                        if k.arg == p:
+                            val = k.value
+                    if val is None and i < len(ps) and i < len(c.args) and not any(isinstance(x, ast.Starred) for x in c.args[:i + 1]):
+                        val = c.args[i]
+                    if val is None and (any(isinstance(x, ast.Starred) for x in c.args) or any(k.arg is None for k in c.keywords)):
+                        continue
+                    # a value that is itself built from other settings (a nested constructor) is judged at that constructor
+                    reads = {n_.attr for n_ in ast.walk(val) if isinstance(n_, ast.Attribute) and isinstance(n_.value, ast.Name) and n_.value.id == "settings"} if val is not None else set()
+                    n += 1
+                    kk = key(fi, f"{t.qualname}({p}=)")
+                    if val is None:
+                        ctx.fail(kk, f"{fi.qualname} configures {t.qualname} but does not pass `{p}` (settings.{attr}): the generator silently runs with its default instead of the user's setting", fi.loc(c))
+                    elif attr not in reads and not (isinstance(val, ast.Name) and val.id not in ("settings",)):
+                        ctx.fail(kk, f"{fi.qualname} passes `{norm(val)[:70]}` as `{p}` of {t.qualname}; it is configured by settings.{attr}", fi.loc(c))
+                    else:
+                        ctx.ok(f"{fi.qualname} -> {t.qualname}: {p} <- settings.{attr}", fi.loc(c))
+    return n
